@@ -214,12 +214,13 @@ def f32_round(x):
 
 
 class Frame:
-    __slots__ = ('fn', 'f', 'bb', 'dest', 'ret_bb', 'unwind_bb', 'blocks', 'ltys')
+    __slots__ = ('fn', 'f', 'bb', 'dest', 'ret_bb', 'unwind_bb', 'blocks', 'ltys', 'at')
 
     def __init__(self, fn, nlocals):
         self.fn = fn
         self.f = [UNINIT] * nlocals
         self.bb = 0
+        self.at = 0       # block whose terminator is being executed
         self.dest = None
         self.ret_bb = None
         self.unwind_bb = None
@@ -1425,6 +1426,7 @@ class Interp:
         while len(stack) > base:
             frame = stack[-1]
             ctx.cur = frame
+            frame.at = frame.bb
             stmts, term = frame.blocks[frame.bb]
             self.steps += len(stmts) + 1
             if self.steps > self.max_steps:
@@ -1593,6 +1595,7 @@ class Interp:
         """execute cleanup blocks of `frame` until Resume"""
         stack = self.stack
         while True:
+            frame.at = frame.bb
             stmts, term = frame.blocks[frame.bb]
             self.steps += len(stmts) + 1
             for kk, d in stmts:
